@@ -294,7 +294,7 @@ def special(E):
 
 def harnesses(tier):
     q = tier == "quick"
-    T = 600 if q else 2400
+    T = 600 if q else 900
     k, w, cap = (2, 3, 36) if q else (3, 3, 81)
     dimsets = [(2, 3), (3, 1)] if q else [(2, 3), (3, 1), (3, 2), (1, 2)]
     return [
